@@ -615,3 +615,23 @@ Proof.
   - apply all_ok_intro. intros l Hl. apply pref64_plc_total; auto.
   - apply all_ok_intro. intros r Hr. apply route_dest_total; auto.
 Qed.
+
+(* the accepted value of a duration string is the manual's reading of it *)
+Lemma dur_loop_value : forall s num ret d, dur_loop s num ret = Ok d -> dur_value s num ret = Some d.
+Proof.
+  induction s as [|c r IH]; intros num ret d; cbn [dur_loop dur_value].
+  - destruct num as [n|].
+    + destruct (ret + n <=? u64max); [|discriminate]. intros H; inversion H; reflexivity.
+    + intros H; inversion H; subst. rewrite N.add_0_r; reflexivity.
+  - destruct (is_digit c).
+    + destruct num as [n|].
+      * destruct (n * 10 + (c - 48) <=? u64max); [apply IH|discriminate].
+      * destruct (c - 48 <=? u64max); [|discriminate]. intros H. apply IH in H. rewrite N.add_0_l. exact H.
+    + destruct (unit_mult c) as [m|].
+      * destruct num as [n|]; [|discriminate].
+        destruct (n * m <=? u64max); [|discriminate].
+        destruct (ret + n * m <=? u64max); [apply IH|discriminate].
+      * destruct (is_whitespace c || (c =? 95))%bool; [apply IH|discriminate].
+Qed.
+Lemma str_duration_value : forall s d, str_duration s = Ok d -> dur_value s None 0 = Some d.
+Proof. intros s d; apply dur_loop_value. Qed.
